@@ -202,7 +202,9 @@ def make(nkeys, nrows, checks, check_rows, fixed_keys=None, twice=False, sym_val
             reader = validio.Reader(cid, rows, on_error="yield", validate_until=lim)
             for the_pass in range(2 if twice else 1):
                 got = []
-                for r in reader.rows():
+                produced = list(reader.rows())
+                # (the errors are looked at only after the pass: each must still name its own row)
+                for r in produced:
                     if isinstance(r, errors.DataError):
                         sa = r.see_also_location
                         got.append(("err", r.location.line, r.location.cell, None if sa is None else sa.line))
